@@ -157,6 +157,12 @@ func runC18(w *World, tr *Trace) {
 		taskOps = append(taskOps, mut)
 		var rd []Op
 		for i := 0; i < 30+r.Intn(120); i++ {
+			if r.Intn(8) == 0 {
+				// a state save while the mutator allocates (the index saves its arena state during a snapshot, with inserts
+				// going on): what is saved must be a state the arena was in - loaded later, it must not hand a live slot out again
+				rd = append(rd, Op{K: "savestate"})
+				continue
+			}
 			rd = append(rd, Op{K: "read", KK: 1 + r.Intn(30), T: int64(r.Intn(2))})
 		}
 		taskOps = append(taskOps, rd)
@@ -335,6 +341,32 @@ func runC18(w *World, tr *Trace) {
 				readsChecked++
 				if !good {
 					w.Fail("reader_sees_own_bytes", "reader_foreign_bytes", fmt.Sprintf("concurrent reader of id %d (ver %d) got the bytes of id %d ver %d from GetBytes with no relocation or mutation in between", id, ver, hdr[0], hdr[1]), i)
+				}
+			}
+		case "savestate":
+			gate.RLock()
+			st := c.arena.GetState()
+			gate.RUnlock()
+			w.Probe("state_saved_during_mutation")
+			used := map[uint32]int{}
+			for id, ps := range st.SlotTable {
+				if ps == mmap.UnallocatedSlot {
+					continue
+				}
+				if ps >= st.NextPhysSlot {
+					w.Fail("saved_state_consistent", "slot_beyond_frontier", fmt.Sprintf("saved state: id %d holds physical slot %d, but the allocation frontier is %d - after LoadState the next allocation gets that slot again", id, ps, st.NextPhysSlot), i)
+					return
+				}
+				if other, dup := used[ps]; dup {
+					w.Fail("saved_state_consistent", "slot_shared_in_saved_state", fmt.Sprintf("saved state: ids %d and %d both hold physical slot %d", other, id, ps), i)
+					return
+				}
+				used[ps] = id
+			}
+			for _, fs := range st.FreeSlots {
+				if id, live := used[fs]; live {
+					w.Fail("saved_state_consistent", "live_slot_free_in_saved_state", fmt.Sprintf("saved state: physical slot %d of id %d is on the free list", fs, id), i)
+					return
 				}
 			}
 		case "compact":
